@@ -83,6 +83,13 @@ CLAIMS = {
         "text": "All hooked socket calls incl. accept and connect, both blocking modes, all scripted outcomes, thread and coroutine callers: F_GETFL after == before always; a caller-non-blocking descriptor whose first inner call would block returns -1/EAGAIN (EINPROGRESS for connect) after exactly one inner call and without a wait slice (latency deviations must repeat 3/3 to count); a hooked call that does not return within 30 s is reported with its case.",
         "note": "The 9 ms latency bound sits below the runtime's smallest wait slice (10 ms).",
     },
+    "C19": {
+        "engine": "vsock C19",
+        "category": "fault_enumeration",
+        "technique": PBT + ": stateful histories in a fresh child process per case, differential against the kernel's getsockopt",
+        "text": "Generated histories of set SO_RCVTIMEO/SO_SNDTIMEO, hooked send/recv, close and reopen over 3 socketpairs run in a fresh child; after every op the limits the hooks would apply are compared with the kernel's own option values for every live descriptor; a crash is attributed to the op in flight.",
+        "note": "Timeouts are multiples of 20 ms (no jiffies rounding); descriptor-number reuse depends on the kernel handing out the lowest free number.",
+    },
     "C25": {
         "engine": "vcore C25",
         "technique": PBT + ": model-based histories (HashMap model, drop-counting values)",
